@@ -2,8 +2,9 @@
    splicecommand.go (parseTimeSignal, parseSpliceInsert, spliceInsert.parse, parseSpliceTime),
    segmentationdescriptor.go (parseDescriptor, componentFromBytes), psi/psi.go (PointerField,
    TableHeaderFromBytes), tsutils.go (ComputeCRC).
-   The REPAIRED code is modelled (notes/candidate-fixes.patch: F8 component offset / 40-bit
-   duration; descriptor loop counter in int; guards in the MID loop).
+   The repaired code (/repo HEAD) is modelled: F8 component offset / 40-bit duration; descriptor loop
+   counter in int; guards in the MID loop; the two length guards of parseDescriptor (1ed5cb6);
+   a splice_null keeps its pts_adjustment in s.pts (0fcfd24).
    Conventions: DESIGN section 3.  Disjoint big-endian assembly `a<<8 | b` is written `a*256 + b`
    (as Prelude.be16/be32); masks stay N.land; every uint8/uint16 wrap is explicit. *)
 From Gots Require Import Base.Prelude Model.Pts.
@@ -215,9 +216,11 @@ Definition seg0 (owner : option N) : segdesc :=
 (* segmentationDescriptor.parseDescriptor(data); owner = the signal being parsed *)
 Definition parse_descriptor (owner : option N) (data : bytes) : Res segdesc :=
   let b := buf_new data in
+  if blen b <? 4 then Err E.InvalidSCTE35Length else          (* too short to hold the identifier *)
   let (idb, b1) := next 4 b in
   let? id := be32_of idb in
   if negb (id =? segDescID) then Err E.SCTE35InvalidDescriptorID else
+  if blen b1 <? 5 then Err E.InvalidSCTE35Length else         (* event id + cancel indicator must be present *)
   let (eb, b2) := next 4 b1 in
   let? eid := be32_of eb in
   let (c, b3) := read_byte0 b2 in
@@ -306,7 +309,7 @@ Definition parse_command (ct adj : N) (b : buf) : Res (N * command * buf) :=
                 else let? ri := parse_insert b in let (i, b') := ri in Ok (CInsert i, b')) in
     let (cmd, b') := rc in
     Ok (Pts.add (cmd_pts cmd) adj, cmd, b')
-  else if ct =? SpliceNull then Ok (0, CNull, b)
+  else if ct =? SpliceNull then Ok (adj, CNull, b)   (* s.pts = ptsAdjustment: nothing to adjust, kept for re-encoding *)
   else Err E.SCTE35UnsupportedSpliceCommand.
 
 (* descriptor_loop_length, the two length guards and the descriptor loop of parseTable *)
